@@ -430,7 +430,9 @@ func (m *Machine) tick() (bool, error) {
 		}
 		switch v := v.(type) {
 		case machine.Asset:
-			m.Balances[a][v] = machine.Zero
+			if balance, ok := m.Balances[a][v]; !ok || balance.Gt(machine.Zero) {
+				m.Balances[a][v] = machine.Zero
+			}
 		case machine.Monetary:
 			m.Balances[a][v.Asset] = m.Balances[a][v.Asset].Sub(v.Amount)
 		default:
